@@ -1,5 +1,6 @@
 //! Lazy loading functionality for DBC files
 
+use crate::field_parser::bounded_capacity;
 use crate::{DbcHeader, Error, FieldType, Record, Result, Schema, StringBlock, Value};
 use std::io::{Cursor, Read};
 use std::sync::Arc;
@@ -85,7 +86,8 @@ impl LazyRecordIterator<'_> {
 
     /// Parse a record without a schema
     fn parse_record_raw(&mut self) -> Result<Record> {
-        let mut values = Vec::with_capacity(self.header.field_count as usize);
+        let mut values =
+            Vec::with_capacity(bounded_capacity(&self.cursor, self.header.field_count, 4));
 
         for _ in 0..self.header.field_count {
             // Without a schema, we assume all fields are 32-bit integers
@@ -193,7 +195,7 @@ impl<'a> LazyDbcParser<'a> {
 
     /// Parse a record without a schema
     fn parse_record_raw(&self, cursor: &mut Cursor<&'a [u8]>) -> Result<Record> {
-        let mut values = Vec::with_capacity(self.header.field_count as usize);
+        let mut values = Vec::with_capacity(bounded_capacity(cursor, self.header.field_count, 4));
 
         for _ in 0..self.header.field_count {
             // Without a schema, we assume all fields are 32-bit integers
